@@ -327,7 +327,7 @@ func c06Input(c *core.Ctx, pkg *packages.Package) {
 		})
 		if store != nil {
 			t := an.Table{G: g, From: g.EntryLoc(), MayOnly: true, Atoms: []an.Atom{{Name: "ok", Values: []string{"T", "F"}}},
-				Binder: &an.Binder{Fn: fn, Re: []an.ReRole{an.RE(`^computeNewValue\(.*\)#2$`, "COMPUTE#2")}, Eq: map[string]string{"COMPUTE#2|nil": "ok"}},
+				Binder:  &an.Binder{Fn: fn, Re: []an.ReRole{an.RE(`^computeNewValue\(.*\)#2$`, "COMPUTE#2")}, Eq: map[string]string{"COMPUTE#2|nil": "ok"}},
 				Targets: []an.Loc{g.Locate(store)}, Want: func(r an.Row, _ int) an.Tri {
 					if r["ok"] == "F" {
 						return an.F
@@ -422,7 +422,7 @@ func c06Notify(c *core.Ctx, pkg *packages.Package) {
 					Atoms:   []an.Atom{{Name: "errnil", Values: []string{"T", "F"}}, {Name: "ver", Values: []string{"eq", "gt"}}},
 					Binder:  &an.Binder{Fn: lf, Re: re, Eq: map[string]string{MC + "#4|nil": "errnil"}, Cmp: map[string]string{MC + "#1|0": "ver"}},
 					Targets: []an.Loc{g.Locate(notif.Expr), g.Locate(bcast.Expr)}, Names: []string{"notifyWatchers", "broadcastNewValue"},
-					Want:    func(r an.Row, _ int) an.Tri { return an.FromBool(r["errnil"] == "T" && r["ver"] == "gt") }}
+					Want: func(r an.Row, _ int) an.Tri { return an.FromBool(r["errnil"] == "T" && r["ver"] == "gt") }}
 				res := t.Run()
 				// identity of forwarded values
 				bc := lf.Canon(bcast.Expr.Args[1])
